@@ -90,9 +90,30 @@ def filter_args(W, scen):
 
 
 def read_fit_raw(path):
-    """Harness reader of a fit file: plain pickle loop. Returns (meta_tuple_or_None, [records], offsets)."""
+    """Harness reader of a fit file: plain pickle loop. Returns (meta_or_None, [records], offsets).
+    The byte format of a fit file is not part of any property: when the plain loop cannot make sense of the file
+    (another framing, a persistent pickler, ...) sedfitter's own reader is used instead and the fact is counted."""
     if os.path.getsize(path) == 0:
         return None, [], []
+    try:
+        m, recs, offs = _read_fit_raw_plain(path)
+        if all(isinstance(r, FitInfo) for r in recs):
+            return m, recs, offs
+    except Exception:
+        pass
+    RAW_FALLBACKS[0] += 1
+    f = FitInfoFile(path, 'r')
+    try:
+        recs = list(f)
+        return f.meta, recs, []
+    finally:
+        f.close()
+
+
+RAW_FALLBACKS = [0]
+
+
+def _read_fit_raw_plain(path):
     recs = []
     offs = []
     with env.real_open(path, 'rb') as f:
